@@ -3,6 +3,7 @@ package whitespace
 import (
 	"regexp"
 	"strings"
+	"unicode/utf8"
 
 	"github.com/ajitpratap0/GoSQLX/pkg/linter"
 	"github.com/ajitpratap0/GoSQLX/pkg/models"
@@ -154,7 +155,10 @@ func extractNonStringParts(line string) []linePart {
 		if currentPart.Len() == 0 {
 			partStart = i
 		}
-		currentPart.WriteRune(ch)
+		// copy the original bytes: a byte that is not valid UTF-8 stays one byte, so that offsets
+		// into the part are offsets into the line
+		_, size := utf8.DecodeRuneInString(line[i:])
+		currentPart.WriteString(line[i : i+size])
 	}
 
 	// Add final part
